@@ -24,14 +24,36 @@ def gen_case(rng, cid, mode):
                 conds.append(c)
         for k in n["kids"]:
             walk(k)
+    # make sure the first selector constrains at least two of its captures
+    plain = []
+
+    def collect(n):
+        for c in n["caps"]:
+            if c["name"] in ("a", "b", "p", "i"):
+                (conds if c["cond"]["k"] != "none" else plain).append(c)
+        for k in n["kids"]:
+            collect(k)
+    collect(hs[0]["sel"])
+    rng.shuffle(plain)
+    while len(conds) < 2 and plain:
+        c = plain.pop()
+        c["cond"] = S.cond(rng.choice(["lt", "gte", "gt", "lte"]), n=rng.randint(5, 35))
+        conds.append(c)
+    conds.clear()
     sib = copy.deepcopy(hs[0]["sel"])
     walk(sib)
     if len(conds) >= 2:
         victim = rng.choice(conds[1:])
         victim["cond"] = dict(S.NOCOND) if rng.random() < 0.6 else dict(victim["cond"], n=victim["cond"]["n"] + 1)
         hs[rng.choice([1, 2])] = W.norm_handler({"kind": "imm", "sel": sib})
-    s = c04.focused_on(rng, fns, rng.choice(["a", "b", "i", "p"]), conds=True)
+    var = rng.choice(["a", "b", "i", "p"])
+    s = c04.focused_on(rng, fns, var, conds=True)
     hs.insert(rng.randint(0, 3), W.norm_handler({"kind": "imm", "sel": s, "ovr": {"k": "const", "c": rng.randint(500, 999)}}))
+    if rng.random() < 0.5:
+        # a second conditional override on the same variable: each applies under its own condition, the most recent
+        # one that does not decline wins
+        s2 = c04.focused_on(rng, fns, var, conds=True)
+        hs.insert(rng.randint(0, 4), W.norm_handler({"kind": "imm", "sel": s2, "ovr": {"k": "const", "c": rng.randint(300, 499)}}))
     return {"id": cid, "script": sc, "arg": rng.randint(0, 40), "handlers": hs}
 
 
